@@ -229,7 +229,9 @@ theorem binop_agrees_exact (op : BinOp) {t1 t2 t : CType} {v1 v2 v : Int}
       · cases h
       · rw [arith_eq hx h]
         have : ¬ v2 < 0 := by omega
-        simp [applyBin_def, applyBinSpec, this]
+        have hw := width_le t1
+        have hbig : ¬ v2 > shiftBound := by unfold shiftBound; omega
+        simp [applyBin_def, applyBinSpec, this, hbig]
   case shr =>
     split at h
     · cases h
@@ -338,7 +340,9 @@ theorem eval_agrees_nowrap_aux (cenv : Env) (penv : ConstExpr.Env)
         simp only [hl, hr] at h hn
         have m1 := ihl hn.1.1 t1 v1 hl
         have m2 := ihr hn.1.2 t2 v2 hr
-        have hb := binop_agrees_exact op hn.2 h
+        have hx := hn.2
+        simp only [h] at hx
+        have hb := binop_agrees_exact op hx h
         simp [CExpr.toModel, ConstExpr.eval, m1, m2, bind, Except.bind, hb]
 
 end CffiVerif.CConstExpr
